@@ -336,7 +336,7 @@ Lemma gsr_no_create_when_equal_listed s revs fresh_hash :
 Proof.
   intros Hh (r & Hr & Ht & Hn). unfold get_set_revisions. rewrite Hh.
   set (fresh := {| r_name := rev_name s fresh_hash; r_revision := _; r_tmpl := s_tmpl s; r_owner := Some (me s); r_match := true;
-                   r_marker := None; r_hash := Some fresh_hash; r_created := 0; r_labels_nil := false |}).
+                   r_marker := None; r_hash := Some fresh_hash; r_created := created_now; r_labels_nil := false |}).
   assert (Heq : In r (filter (fun q => equal_revision q fresh) revs)).
   { apply filter_In. split; [exact Hr|]. unfold equal_revision. rewrite Hn.
     destruct (hash_num fresh); apply Z.eqb_eq; exact Ht. }
